@@ -11,8 +11,11 @@
 
    Steps.  A step is one top-level transaction, INCLUDING the reader transactions on resource_classes and traits
    (name look-ups through rc_cache / trait_cache, trait_obj.get_all): a scheduler that replays these schedules on
-   the application must treat those two tables like the core tables.  The re-read of a wiped consumer's rows and
-   the cache reload it triggers are one step (TObjs / WWipe).
+   the application must treat those two tables like the core tables.  The re-read of a wiped consumer's rows is one
+   step (TObjs / WWipe) and the cache (re)load it triggers is the next one (ACacheLoad); likewise for
+   DELETE /allocations/{c} (ADelRead, ADelLoad).  For schedulers that do NOT treat resource_classes as a core table
+   (a slot = any number of transactions touching no core table followed by one that does) use a_run_sched_coarse /
+   a_sched_agrees_coarse, where the cache load is part of the slot of the transaction that follows it.
 
    placement/handlers/resource_class.py, placement/objects/resource_class.py
      POST   /resource_classes           schema (name must be CUSTOM_...; 400), then ONE writer transaction
@@ -69,6 +72,9 @@ Definition set_traits_chk (d : db) (u g : Z) (want : list Z) : result db :=
 Inductive athread :=
 | ATree (t : tthread)
 | ACached (snap : option (list (Z * Z))) (t : tstate)   (* allocation writes + the request's class cache *)
+| ACacheLoad (t : tstate)                               (* ... about to (re)load the cache: a reader transaction *)
+| ADelRead (c : Z)                                      (* DELETE /allocations/{c}: the rows are read ... *)
+| ADelLoad (t : tstate)                                 (* ... and their class ids translated: the same cache load *)
 | ATraitsRead (u g : Z) (ts : list Z)
 | ATraitsLook (u : Z) (ts : list Z) (g : Z)         (* trait_obj.get_all(name_in): its own reader transaction *)
 | ATraitsWrite (u : Z) (ts : list Z) (g : Z) (lost : list Z)   (* g = generation held by the provider object;
@@ -111,20 +117,21 @@ Definition ainit (cf : cfg) (r : req) : athread :=
       if is_std_trait t then ADone (err 400 C_DEFAULT) else ATraitPutLook t
   | TraitDelete v t => if v <? 6 then ADone (err 404 C_DEFAULT) else ATraitDelLook t
   | AllocPut _ _ | AllocPost _ _ | Reshape _ _ _ => ACached None (tinit cf r)
+  | AllocDelete c => ADelRead c
   | _ => ATree (ttinit cf r)
   end.
 
 Definition rc_row_exists (d : db) (id : Z) : bool := existsb (fun x => fst x =? id) (rcs d).
 
-(* the class cache after get_all_by_consumer_id has translated the class ids of `rows`: filled / reloaded from the
-   table when an id is not in it (the standard classes are rows of the table too: an empty cache misses them) *)
-Definition cache_after_wipe (d : db) (snap : option (list (Z * Z))) (rows : list areq) : option (list (Z * Z)) :=
+(* get_all_by_consumer_id translates the class ids of the rows it has read (string_from_id): an id that is not in
+   the cache makes the cache (re)load the whole table - a reader transaction of its own, after the one that read
+   the rows (the standard classes are rows of the table too: an empty cache misses them) *)
+Definition cache_misses (snap : option (list (Z * Z))) (rows : list areq) : bool :=
   match rows with
-  | [] => snap
+  | [] => false
   | _ => match snap with
-         | None => Some (rcs d)
-         | Some s => if forallb (fun q => is_std_rc_name (q_rc q) || existsb (fun x => fst x =? q_rc q) s) rows
-                     then snap else Some (rcs d)
+         | None => true
+         | Some s => negb (forallb (fun q => is_std_rc_name (q_rc q) || existsb (fun x => fst x =? q_rc q) s) rows)
          end
   end.
 (* cached classes that the table has lost *)
@@ -148,7 +155,8 @@ Definition astep (cf : cfg) (t : athread) (d : db) : athread * db :=
   | ACached snap t0 =>
       match t0 with
       | TObjs _ _ (WWipe k :: _) _ =>
-          let '(d', t') := tstep t0 d in (ACached (cache_after_wipe d snap (wipe_list d (co_uuid k))) t', d')
+          let '(d', t') := tstep t0 d in
+          if cache_misses snap (wipe_list d (co_uuid k)) then (ACacheLoad t', d') else (ACached snap t', d')
       | TMain x ks objs =>
           match main_txn_cached snap x ks objs d with
           | Ok d' => (ACached snap (cleanup_or_done (created_uuids (empty_created ks (x_all x))) (ok 204)), d')
@@ -156,6 +164,13 @@ Definition astep (cf : cfg) (t : athread) (d : db) : athread * db :=
           end
       | _ => let '(d', t') := tstep t0 d in (ACached snap t', d')
       end
+  | ACacheLoad t0 => (ACached (Some (rcs d)) t0, d)
+  | ADelRead c =>
+      (* get_all_by_consumer_id: no rows -> 404; else the (empty) cache is loaded to name their classes, and is not
+         used again *)
+      let '(d', t') := tstep (TDelRead c) d in
+      (match tdone t' with Some _ => ATree (TTOther t') | None => ADelLoad t' end, d')
+  | ADelLoad t0 => (ATree (TTOther t0), d)
   | ATraitsRead u g ts =>
       match find_rp d u with
       | None => (ADone (err 404 C_DEFAULT), d)
@@ -282,6 +297,23 @@ Fixpoint a_run_sched (cf : cfg) (s : list nat) (ts : list athread) (d : db) : li
   | i :: s' => let '(ts', d') := a_step_thread cf i ts d in a_run_sched cf s' ts' d'
   end.
 
+(* The coarser granularity of schedulers for which a transaction that only reads resource_classes is NOT a scheduling
+   point: the cache load runs at the beginning of the thread's next slot, together with the transaction that follows.
+   (Every such execution is an execution of a_run_sched: the slot is two consecutive entries of the same thread.) *)
+Definition loads (t : athread) : bool :=
+  match t with ACacheLoad _ | ADelLoad _ => true | _ => false end.
+Definition a_step_thread_coarse (cf : cfg) (i : nat) (ts : list athread) (d : db) : list athread * db :=
+  match nth_error ts i with
+  | Some t => if loads t then let '(ts1, d1) := a_step_thread cf i ts d in a_step_thread cf i ts1 d1
+              else a_step_thread cf i ts d
+  | None => (ts, d)
+  end.
+Fixpoint a_run_sched_coarse (cf : cfg) (s : list nat) (ts : list athread) (d : db) : list athread * db :=
+  match s with
+  | [] => (ts, d)
+  | i :: s' => let '(ts', d') := a_step_thread_coarse cf i ts d in a_run_sched_coarse cf s' ts' d'
+  end.
+
 Definition a_exec (cf : cfg) (reqs : list req) (s : list nat) (d : db) : list athread * db :=
   a_run_sched cf s (map (ainit cf) reqs) d.
 
@@ -306,6 +338,17 @@ Definition a_sched_result (cf : cfg) (setup : list req) (reqs : list req) (s : l
 Definition a_sched_agrees (cf : cfg) (x : list req * list req * list Z * list Z * list (list (list Z))) : bool :=
   let '(setup, reqs, s, sts, dmp) := x in
   let '(sts', dmp') := a_sched_result cf setup reqs s in
+  list_eqb Z.eqb sts' sts && dump_eqb (core_dump dmp') (core_dump dmp).
+
+(* the same for the coarser granularity *)
+Definition a_sched_result_coarse (cf : cfg) (setup : list req) (reqs : list req) (s : list Z)
+  : list Z * list (list (list Z)) :=
+  let d0 := run cf db0 setup in
+  let '(ts, d) := a_run_sched_coarse cf (map Z.to_nat s) (map (ainit cf) reqs) d0 in
+  (map (fun t => match a_done t with Some r => status r | None => -1 end) ts, dump d).
+Definition a_sched_agrees_coarse (cf : cfg) (x : list req * list req * list Z * list Z * list (list (list Z))) : bool :=
+  let '(setup, reqs, s, sts, dmp) := x in
+  let '(sts', dmp') := a_sched_result_coarse cf setup reqs s in
   list_eqb Z.eqb sts' sts && dump_eqb (core_dump dmp') (core_dump dmp).
 
 (* ---------------------------------------------------------------- referential integrity as a computation
